@@ -331,6 +331,52 @@ theorem model_sweep_ascent_directed (hv : ViewOK nv s.u.R) (hsh : DirShape K nv 
 
 end model
 
+/-! ### every directed network built from an edge list satisfies `ViewOK` -/
+
+theorem built_view_ok {β ω : Type} [DecidableEq β] [Weight ω] (starts ends : List β) (weights : List ω) :
+    ViewOK (build true starts ends weights).view (build true starts ends weights).labels.length := by
+  set n := build true starts ends weights with hn
+  have hrecs := build_recs_lt true starts ends weights
+  have hnV : n.nV ≤ n.labels.length := by unfold Net.nV; split <;> omega
+  have hund : (List.range n.nV).Nodup := List.nodup_range
+  refine ⟨rfl, MTProps.C02.built_view_wf true starts ends weights, ?_, hund.filter _, ?_, ?_, ?_⟩
+  · intro a i j
+    rw [view_inn, view_out]
+    have hdir : n.directed = true := rfl
+    simp only [hdir, true_and]
+    by_cases ha : a < n.nL
+    · have hnV' : n.nV = n.labels.length := by unfold Net.nV; rw [if_neg (by omega)]
+      by_cases hi : i < n.nV <;> by_cases hj : j < n.nV
+      · simp only [ha, hi, hj, and_self, ↓reduceIte]
+        exact inn_count_eq_out_count n hdir a i j
+      · -- j out of range: nothing points to it
+        simp only [ha, hi, hj, and_false, and_self, ↓reduceIte, List.count_nil]
+        symm
+        rw [List.count_eq_zero]
+        intro hmem
+        have h1 : j < n.labels.length := out_lt_of_recs n _ hrecs a i j hmem
+        omega
+      · simp only [ha, hi, hj, and_false, and_self, ↓reduceIte, List.count_nil]
+        rw [List.count_eq_zero]
+        intro hmem
+        have h1 : i < n.labels.length := inn_lt_of_recs n _ hrecs a j i hmem
+        omega
+      · simp [ha, hi, hj]
+    · simp [ha]
+  · show n.vList.Nodup
+    unfold Net.vList; split
+    · exact hund.filter _
+    · exact hund.filter _
+  · intro i hi
+    have : i ∈ n.uList := hi
+    have := (List.mem_filter.mp this).1
+    rw [List.mem_range] at this; omega
+  · intro j hj
+    have hj' : j ∈ n.vList := hj
+    unfold Net.vList at hj'; split at hj'
+    · have := (List.mem_filter.mp hj').1; rw [List.mem_range] at this; omega
+    · have := (List.mem_filter.mp hj').1; rw [List.mem_range] at this; omega
+
 /-! ### the affinity step alone (also undirected) -/
 
 /-- **affinity step ascent**, for any memberships (in undirected mode `v = u`, `V = U`) -/
